@@ -72,6 +72,21 @@ theorem filterMultiple_perm {l₁ l₂ : List FHit} (h : l₁.Perm l₂) (hd : l
   · rintro ⟨hx, hp, hall⟩
     exact ⟨h.mem_iff.mpr hx, hp, fun g hg => hall g (h.mem_iff.mp hg)⟩
 
+/-- every profile with a hit scoring above −1 keeps one that scores at least as high -/
+theorem multiple_profile_survives' (hits : List FHit) (g : FHit) (hg : g ∈ hits) (hs : -10 < g.sc) :
+    ∃ x ∈ filterMultiple hits, x.prof = g.prof ∧ g.sc ≤ x.sc := by
+  have inv := final_inv hits
+  obtain ⟨e, he, hk⟩ := List.mem_map.mp (inv.complete g hg hs)
+  obtain ⟨l1, l2, hfb, _, hp⟩ := inv.sound e he
+  refine ⟨e.2.2, mem_filterMultiple.mpr ⟨l1, l2, hfb⟩, by rw [hp, hk], ?_⟩
+  obtain ⟨hsplit, _, h1, h2⟩ := hfb
+  rw [hsplit] at hg
+  rcases List.mem_append.mp hg with hg | hg
+  · have := h1 g hg (by rw [hp, hk]); omega
+  · rcases List.mem_cons.mp hg with rfl | hg
+    · exact Int.le_refl _
+    · exact h2 g hg (by rw [hp, hk])
+
 /-! ### `find_hmmer_hits`, one gene -/
 
 theorem filterResults_eq_some (eqs : List (List Int)) (hits : List FHit) (hu : UidNodup hits) :
@@ -142,6 +157,46 @@ theorem findHmmerHitsGene_sound (cut : Int → Int) (eqs : List (List Int)) (raw
         intro a b c; simp only [leHs, decide_eq_true_eq]; omega
       exact (sortBy_pairwise total trans _).imp (fun h => by simpa [leHs] using h)
 
+/-- a hit that competes with no hit of the gene survives a competition -/
+theorem filterPass_keeps_uncontested (hits : List FHit) (eq : List Int) (hu : UidNodup hits) (h : FHit)
+    (hh : h ∈ hits) (hno : ∀ o ∈ hits, competes h o = false) : h ∈ filterPass hits eq := by
+  by_cases hq : ((firstOcc (hits.map (·.prof))).filter (fun p => eq.contains p)).length < 2
+  · unfold filterPass; simp only []; rw [if_pos hq]; exact hh
+  · rw [filterPass_mem_iff hits eq hu hq]
+    refine ⟨hh, ?_⟩
+    intro o ho hl
+    have : o = h := by
+      cases hl with
+      | refl _ => rfl
+      | step _ hb hc _ => rw [hno _ hb] at hc; exact absurd hc (by simp)
+    subst this
+    simp only [prefers, Bool.or_eq_false_iff, decide_eq_false_iff_not, Bool.and_eq_false_iff]
+    refine ⟨by omega, Or.inr ?_⟩
+    rw [← Bool.not_eq_true, List.isSublist_iff_sublist]
+    intro hs
+    have := hu.nodup.sublist hs
+    simp at this
+
+theorem foldl_filterPass_keeps_uncontested : ∀ (eqs : List (List Int)) (hits : List FHit), UidNodup hits →
+    ∀ h ∈ hits, (∀ o ∈ hits, competes h o = false) → h ∈ eqs.foldl filterPass hits
+  | [], _, _, _, hh, _ => by simpa using hh
+  | g :: eqs, hits, hu, h, hh, hno => by
+    simp only [List.foldl_cons]
+    have hs := filterPass_sublist hits g
+    exact foldl_filterPass_keeps_uncontested eqs _ (hu.sublist hs) h
+      (filterPass_keeps_uncontested hits g hu h hh hno) (fun o ho => hno o (hs.subset ho))
+
+/-- every hit that survives the competition (and scores above −1) has its profile represented in
+    what `find_hmmer_hits` returns for the gene, by a hit scoring at least as high -/
+theorem findHmmerHitsGene_represents_survivors (cut : Int → Int) (eqs : List (List Int)) (raw : List FHit)
+    (hu : UidNodup raw) : ∃ out, findHmmerHitsGene cut eqs raw = some out ∧
+      ∀ h ∈ eqs.foldl filterPass (raw.filter (aboveCutoff cut)), -10 < h.sc →
+        ∃ x ∈ out, x.prof = h.prof ∧ h.sc ≤ x.sc := by
+  refine ⟨_, findHmmerHitsGene_eq cut eqs raw hu, ?_⟩
+  intro h hh hs
+  obtain ⟨x, hx, hp, hsc⟩ := multiple_profile_survives' _ h hh hs
+  exact ⟨x, (mem_sortBy _).mpr hx, hp, hsc⟩
+
 /-! ### `run_hmmer`, one locus -/
 
 theorem runHmmerGene_perm (cut : Int → Option Int) (minScore maxEvalue : Int) {r₁ r₂ : List RawHmm} (h : r₁.Perm r₂)
@@ -186,5 +241,76 @@ theorem subtypeHits_overlap (env : Env) (strip : Int → Int) (raw : List Hit) (
   simp only [subtypeHits, List.mem_map, List.mem_filter] at hs
   obtain ⟨h, ⟨hh, ho⟩, rfl⟩ := hs
   exact ⟨by simpa [overlapsWith] using ho, h, hh, rfl⟩
+
+/-! ### the whole record: `gather_by_query` + the gene loop -/
+
+theorem refine_nil (env : Env) (nb : Bool) : refine env nb [] = [] := by
+  cases nb <;> rfl
+
+theorem lookup_filterMap (env : Env) (nb : Bool) (hitsOf : Int → List Hit) (g : Int) : ∀ ks : List Int,
+    lookupGene ((ks.map fun k => (k, hitsOf k)).filterMap fun e =>
+        let refined := refine env nb e.2
+        if refined.isEmpty then none else some (e.1, refined)) g =
+      if g ∈ ks then refine env nb (hitsOf g) else []
+  | [] => by simp [lookupGene]
+  | k :: ks => by
+    have ih := lookup_filterMap env nb hitsOf g ks
+    simp only [List.map_cons, List.filterMap_cons]
+    by_cases he : (refine env nb (hitsOf k)).isEmpty = true
+    · simp only [he, if_true]
+      rw [ih]
+      by_cases hk : k = g
+      · subst hk
+        have : refine env nb (hitsOf k) = [] := List.isEmpty_iff.mp he
+        simp [this]
+      · have : (g ∈ k :: ks) ↔ g ∈ ks := by
+          simp only [List.mem_cons]
+          constructor
+          · rintro (h | h)
+            · exact absurd h.symm hk
+            · exact h
+          · exact Or.inr
+        simp only [this]
+    · simp only [he, Bool.false_eq_true, if_false]
+      by_cases hk : k = g
+      · subst hk
+        simp [lookupGene]
+      · have hb : (k == g) = false := by simpa using hk
+        have : (g ∈ k :: ks) ↔ g ∈ ks := by
+          simp only [List.mem_cons]
+          constructor
+          · rintro (h | h)
+            · exact absurd h.symm hk
+            · exact h
+          · exact Or.inr
+        simp only [this]
+        rw [← ih]
+        simp only [lookupGene, List.find?_cons, hb]
+
+/-- the entry of a gene in the result of `refine_hmmscan_results` is the refinement of that gene's
+    own hits — whatever else is in the hmmscan output and however the genes are interleaved -/
+theorem refineRecord_lookup (env : Env) (nb : Bool) (raw : List (Int × Hit)) (g : Int) :
+    lookupGene (refineRecord env nb raw) g = refine env nb ((raw.filter fun r => r.1 == g).map (·.2)) := by
+  unfold refineRecord gatherByQuery
+  rw [lookup_filterMap env nb (fun g => (raw.filter fun r => r.1 == g).map (·.2)) g]
+  split
+  · rfl
+  · rename_i hg
+    rw [mem_firstOcc] at hg
+    have : (raw.filter fun r => r.1 == g) = [] := by
+      rw [List.filter_eq_nil_iff]
+      intro r hr hk
+      apply hg
+      exact List.mem_map.mpr ⟨r, hr, by simpa using hk⟩
+    rw [this]
+    simp [refine_nil]
+
+/-- … and so it does not depend on the order of the hmmscan output -/
+theorem refineRecord_perm (env : Env) (nb : Bool) {r₁ r₂ : List (Int × Hit)} (h : r₁.Perm r₂) (g : Int) :
+    lookupGene (refineRecord env nb r₁) g = lookupGene (refineRecord env nb r₂) g := by
+  rw [refineRecord_lookup, refineRecord_lookup]
+  have hp : ((r₁.filter fun r => r.1 == g).map (·.2)).Perm ((r₂.filter fun r => r.1 == g).map (·.2)) :=
+    (h.filter _).map _
+  simp only [refine, beforeIncomplete, sortHits_eq_of_same_set (fun x => hp.mem_iff)]
 
 end ASV.HitCallers
